@@ -245,6 +245,10 @@ impl Model for C01Model {
             Op::Roa { ca: c(), add: vec![], del: vec![ROA_C.into(), ROA_D.into()] },
             // one delta that swaps an authorisation (set size unchanged)
             Op::Roa { ca: c(), add: vec![ROA_B.into()], del: vec![ROA_A.into()] },
+            // one delta that removes an authorisation and adds enough to cross
+            // the aggregation threshold, and the reverse
+            Op::Roa { ca: c(), add: vec![ROA_B.into(), ROA_C.into(), ROA_D.into()], del: vec![ROA_A.into()] },
+            Op::Roa { ca: c(), add: vec![ROA_A.into()], del: vec![ROA_B.into(), ROA_C.into(), ROA_D.into()] },
             Op::AspaSet { ca: c(), customer: 65000, providers: vec![65001] },
             Op::BgpsecAdd { ca: c(), asn: 65000, csr: 0 },
             Op::Entitle { parent: p(), child: c(), res: r3("AS65000", "10.0.0.0/16", "") },
